@@ -281,3 +281,87 @@ func TestWebSocketPair(t *testing.T) {
 		vkit.Case("websocket-pair", big, fmt.Sprintf("%d/%d/%v", len(c.ToServer), len(c.ToClient), big))
 	})
 }
+
+// ---------------------------------------------------------------------------
+// "The reader consumes exactly the bytes of each packet so that every following packet stays
+// aligned" for the one flag combination the writer frames but this reader does not decode: the
+// Encrypted flag (0x80; WritePacket writes PacketType verbatim, the reader answers "encryption not
+// supported, use the transform package"). Whatever the reader returns for such a packet (an error,
+// or the packet), the packets that follow it on the stream must decode unchanged, for every chunking.
+
+type EncCase struct {
+	Pkts  []PktSpec `json:"enc_packets"`
+	Enc   []bool    `json:"encrypted_flag"`
+	Chunk int       `json:"read_size"` // read size (0 = whole stream at once)
+}
+
+func runEnc(c EncCase) (*failure, bool) {
+	var wire bytes.Buffer
+	wp := stream.NewStreamProcessor(bytes.NewReader(nil), &wire, context.Background())
+	for i, p := range c.Pkts {
+		pk := p.packet()
+		if c.Enc[i] {
+			pk.PacketType |= packet.Encrypted
+		}
+		if _, err := wp.WritePacket(pk, p.Compress, 0); err != nil {
+			wp.Close()
+			return nil, false // not accepted by the writer: outside the property
+		}
+	}
+	wp.Close()
+	cr := &vkit.ChunkReader{Data: wire.Bytes(), Fixed: c.Chunk}
+	if c.Chunk == 0 {
+		cr.Fixed = len(cr.Data) + 1
+	}
+	rp := stream.NewStreamProcessor(cr, io.Discard, context.Background())
+	defer rp.Close()
+	afterRejected := false
+	for i, p := range c.Pkts {
+		got, _, err := rp.ReadPacket()
+		if c.Enc[i] {
+			if err != nil {
+				afterRejected = true
+			}
+			continue
+		}
+		where := "plain"
+		if afterRejected {
+			where = "after-rejected-encrypted-flag-packet"
+		}
+		if err != nil {
+			return &failure{"C01/encrypted-flag/following-packet-misaligned/" + where, fmt.Sprintf("packet %d of %d (type %#x, body %d): %v", i, len(c.Pkts), p.Type, len(p.body()), err)}, true
+		}
+		if gotKey(got) != pktKey(p) {
+			return &failure{"C01/encrypted-flag/following-packet-misaligned/" + where, fmt.Sprintf("packet %d of %d (type %#x, body %d bytes) decoded as type %#x with %d payload bytes", i, len(c.Pkts), p.Type, len(p.body()), byte(got.PacketType), len(got.Payload))}, true
+		}
+	}
+	return nil, true
+}
+
+func TestEncryptedFlagAlignment(t *testing.T) {
+	vkit.Check(t, 3000, 60000, func(t *rapid.T) {
+		var c EncCase
+		anyEnc, follow := false, false
+		for j := rapid.IntRange(2, 6).Draw(t, "n"); j > 0; j-- {
+			p := genPkt(t, 3000)
+			e := rapid.IntRange(0, 2).Draw(t, "enc") == 0
+			if anyEnc && !e {
+				follow = true
+			}
+			anyEnc = anyEnc || e
+			c.Pkts = append(c.Pkts, p)
+			c.Enc = append(c.Enc, e)
+		}
+		c.Chunk = rapid.SampledFrom([]int{0, 1, 2, 3, 5, 7, 64, 1500}).Draw(t, "chunk")
+		f, accepted := runEnc(c)
+		if !accepted {
+			vkit.Excluded(1)
+			return
+		}
+		if f != nil {
+			vkit.Violation(t, f.key, f.detail, c)
+			return
+		}
+		vkit.Case("encrypted-flag-alignment", follow, fmt.Sprint(c.Enc, c.Chunk, len(c.Pkts)))
+	})
+}
